@@ -379,7 +379,7 @@ fn rx_keepalive(seed: u64, i: usize) -> Scenario {
 
 fn build(ctx: &Ctx, tier: Tier, seed: u64) -> Vec<Job<'static>> {
     let (cfgs, n_rx, n_rand) = match tier {
-        Tier::Quick => (60, 4_000, 6_000),
+        Tier::Quick => (200, 20_000, 30_000),
         Tier::Thorough => (1_500, 200_000, 300_000),
     };
     let root = ctx.root(997);
